@@ -327,7 +327,7 @@ _AC_ACTIVE_FAN_SPEED_MAPPING = {
         pyairtouch.api.AcFanSpeed.POWERFUL
     ),
     ac_status_msg.AcFanSpeed.INTELLIGENT_AUTO_TURBO: (
-        pyairtouch.api.AcFanSpeed.INTELLIGENT_AUTO
+        pyairtouch.api.AcFanSpeed.TURBO
     ),
 }
 _API_FAN_SPEED_CONTROL_MAPPING = {
